@@ -127,7 +127,9 @@ func runC10(p *Program, r *Result) {
 				}
 			}
 		}
-		if got == "" {
+		if strings.HasPrefix(got, "predicate:") {
+			r.OK(strings.TrimPrefix(got, "predicate:"), "pattern", "", "a predicate of the module decided by evaluation: non-empty, every byte '0'..'9', first byte not '0'")
+		} else if got == "" {
 			r.Unk(pkgAge+".digitsRe", "pattern", "", "no compiled pattern guards the work factor and the package variable digitsRe was not found")
 		} else {
 			ok := false
@@ -323,6 +325,15 @@ func checkScryptWorkBound(p *Program, r *Result, idunwrap *ssa.Function) string 
 			workFactorPattern = re
 			return true
 		})
+		if !reOK {
+			// the same set decided by a hand-written predicate of the module
+			for _, a := range facts {
+				if name, ok := p.canonicalDecimalGuard(a, x); ok {
+					reOK = true
+					workFactorPattern = "predicate:" + name
+				}
+			}
+		}
 		want := []string{
 			"strconv.Atoi(" + x + ").1 == nil",
 			"strconv.Atoi(" + x + ").0 <= Field(Recv.maxWorkFactor)",
@@ -350,4 +361,72 @@ func checkScryptWorkBound(p *Program, r *Result, idunwrap *ssa.Function) string 
 		}
 	}
 	return workFactorPattern
+}
+
+// canonicalDecimalPredicate: fn is a module predicate func(string) bool that accepts exactly the
+// canonical positive decimals (^[1-9][0-9]*$), decided on its code: every `return true` stands
+// behind a non-empty test, a loop over all bytes of the parameter that carries on for '0'..'9'
+// only (E10 evaluates the loop body at its critical points), and a first byte other than '0'.
+func (p *Program) canonicalDecimalPredicate(fn *ssa.Function) bool {
+	if fn == nil || fn.Blocks == nil || len(fn.Params) != 1 || fn.Signature.Results().Len() != 1 {
+		return false
+	}
+	if bt, ok := fn.Signature.Results().At(0).Type().Underlying().(*types.Basic); !ok || bt.Kind() != types.Bool {
+		return false
+	}
+	if bt, ok := fn.Params[0].Type().Underlying().(*types.Basic); !ok || bt.Kind() != types.String {
+		return false
+	}
+	tb := p.TB(fn)
+	ep, _ := p.elemPredicate(fn, func(v ssa.Value) bool { return v == ssa.Value(fn.Params[0]) })
+	if ep == nil {
+		return false
+	}
+	eq, ok, _ := ep.Equals(func(c int64) bool { return c >= '0' && c <= '9' }, []int64{'0', '9'})
+	if !ok || !eq {
+		return false
+	}
+	nTrue := 0
+	for _, ret := range returnsOf(fn) {
+		c, isC := ret.Results[0].(*ssa.Const)
+		if !isC || c.Value == nil {
+			return false
+		}
+		if c.Value.ExactString() != "true" {
+			continue
+		}
+		nTrue++
+		if !p.completedAt(ep.Loop, ret.Block()) {
+			return false
+		}
+		facts := tb.FactsAt(ret.Block())
+		has := func(alts ...string) bool {
+			for _, a := range alts {
+				if _, ok := hasFact(facts, a); ok {
+					return true
+				}
+			}
+			return false
+		}
+		if !has("len(P1) != 0", "len(P1) >= 1", `P1 != ""`) {
+			return false
+		}
+		if !(has("Elem(P1, 0) != 48") || (has("Elem(P1, 0) >= 49") && has("Elem(P1, 0) <= 57"))) {
+			return false
+		}
+	}
+	return nTrue > 0
+}
+
+// canonicalDecimalGuard: the atom is a call `f(x)` taken on its true side with f such a predicate.
+func (p *Program) canonicalDecimalGuard(a Atom, x string) (string, bool) {
+	if a.Kind != "call" || !a.Pol || a.Call == nil || len(a.Call.Args) != 1 || short(a.Call.Args[0].String()) != x {
+		return "", false
+	}
+	for _, fn := range p.Funcs {
+		if fn.Parent() == nil && fn.String() == a.Call.S && p.canonicalDecimalPredicate(fn) {
+			return fn.String(), true
+		}
+	}
+	return "", false
 }
